@@ -17,10 +17,15 @@ var idPool = []string{
 	"1abc", "9", "0a", "qb\x00cd", "qb\x00xy", "qb", "QB", "ab\x00", "\x00ab",
 	"a_b", "a b", "a-b", "ab!", "ab\xc3\xa9", "a\x80b", "@b", "[b", "`b", "{b", "a/", "a:", "az", "AZ", "Az0",
 	"sysop", "SYSOP",
+	// ids that merely start or end with "guest": ordinary accounts, only the id that EQUALS guest is password-less
+	// bytes that are letters in Latin-1 / as runes, but not ASCII letters
+	"ab\xe9", "\xe9b", "a\xaa", "a\xb5c", "\xc0\xc1", "a\xb2",
+	"guest01", "GUEST01", "guestbook", "GuestX", "guests", "myguest", "Aguest", "gues", "guest\x00x",
 }
 
 // ids that may stand in an initial table (well-formed; "guest" exists only as a fixture account)
-var initIDs = []string{"Ab", "abc1", "A1", "Zz9", "qb", "abcdefghijkl", "az", "sysop", "guest", "root", "u00", "u01", "Guest"}
+var initIDs = []string{"Ab", "abc1", "A1", "Zz9", "qb", "abcdefghijkl", "az", "sysop", "guest", "root", "u00", "u01", "Guest",
+	"guest01", "guestbook", "myguest", "GuestX"}
 
 var pwPool = [][]byte{
 	[]byte("pw1"), []byte("pw2"), []byte("p\xf71"), // 'w'|0x80: the effective key of "pw1"
@@ -194,6 +199,27 @@ func generate() {
 	emit(opReg("Next", []byte(""), "-"), true) // the empty password registers a locked account; first free slot is 1
 	emit(opLogin("next", []byte("")), true)
 	emit(opChpw("next", []byte(""), []byte("pw1")), true)
+	// guest-like ids: register / have the account, then log in with a wrong, the empty, the right and (after a
+	// change) the old password; the fixture account "guest" next to them needs none
+	for k, gid := range []string{"guest01", "guestbook", "GuestX", "guests", "myguest", "Aguest", "GUEST9"} {
+		tbl := []initAcct{{slot: 3, id: id13("guest"), kind: 'g', pw: []byte("gpw")}}
+		if k%2 == 1 {
+			// the account exists already (fixture), in another letter case of the request
+			tbl = append(tbl, initAcct{slot: 5, id: id13(gid), kind: 'g', pw: []byte("pw1"), email: "g@l"})
+		}
+		emit(resetLine(nil, tbl), false)
+		emit(opReg(gid, []byte("pw1"), "g@l"), true)
+		emit(opLogin(gid, []byte("pw2")), true)
+		emit(opLogin(strings.ToUpper(gid), []byte("")), true)
+		emit(opLogin(strings.ToLower(gid), []byte("gpw")), true)
+		emit(opLogin(gid, []byte("pw1")), true)
+		emit(opChk(gid, []byte("pw2")), true)
+		emit(opChpw(gid, []byte("pw1"), []byte("pw2")), true)
+		emit(opLogin(gid, []byte("pw1")), true) // the old password
+		emit(opLogin(gid, []byte("pw2")), true)
+		emit(opLogin("guest", []byte("anything")), true)
+		emit(opLogin("GUEST", []byte("")), true)
+	}
 	for _, p := range pwPool {
 		for _, q := range pwPool {
 			emit(resetLine(nil, []initAcct{{slot: 3, id: id13("guest"), kind: 'g', pw: []byte("gpw")}, {slot: 0, id: id13("Tam"), kind: 't', pw: []byte("pw1")}}), false)
